@@ -1,4 +1,5 @@
 #include <string>
+#include <type_traits>
 #include <utility>
 #include <vector>
 
@@ -24,7 +25,10 @@ constexpr std::pair<IntT, IntT> reduce_fraction(IntT a, IntT b) {
 
 template <typename IntT>
 constexpr IntT log2i(IntT v) {
-  return (sizeof(IntT) << 3) - 1 - __builtin_clz(v);
+  // __builtin_clz takes an unsigned int, so it is only correct for 32-bit
+  // types; widen (without sign extension) and use the 64-bit variant instead
+  using UnsignedT = std::make_unsigned_t<IntT>;
+  return 63 - __builtin_clzll(static_cast<unsigned long long>(static_cast<UnsignedT>(v)));
 }
 
 } // namespace phosg
